@@ -65,6 +65,51 @@ Theorem C10_build_terminates_v0_refuted :
 Proof. exact build_terminates_v0_refuted. Qed.
 Print Assumptions C10_build_terminates_v0_refuted.
 
+(* ---- auth_structure_spec.  The node-index list computed by the code is the documented one: exactly
+   needed \ computable, strictly descending (hence de-duplicated), for any order / repetition of in-range
+   indices; out-of-range indices are rejected. *)
+Theorem C10_auth_indices_spec : forall (m : mmode) (n : Z) (idxs : list Z),
+  1 <= n -> 2 * n <= USZ -> (forall i, In i idxs -> 0 <= i < n) ->
+  auth_structure_node_indices m n idxs = Ok (minimal_list n idxs) /\
+  Sorted.StronglySorted Z.gt (minimal_list n idxs) /\
+  forall x, In x (minimal_list n idxs) <-> minimal n idxs x.
+Proof. exact auth_indices_full. Qed.
+Print Assumptions C10_auth_indices_spec.
+
+Theorem C10_auth_structure_spec : forall (D : Type) (H : D -> D -> D) (Deqb : D -> D -> bool) (dflt : D),
+  (forall a b : D, Deqb a b = true <-> a = b) ->
+  forall (leafs : list D) (h : Z) (idxs : list Z) (m : mmode),
+  0 <= h <= 31 -> zlen leafs = 2 ^ h -> (forall i, In i idxs -> 0 <= i) ->
+  let T := spec_tree D H dflt leafs in
+  (forall i, In i idxs -> i < 2 ^ h) /\
+    mt_authentication_structure D m T idxs = Ok (map (znth D dflt T) (minimal_list (2 ^ h) idxs)) \/
+  (exists i, In i idxs /\ 2 ^ h <= i) /\ mt_authentication_structure D m T idxs = Err.
+Proof. exact auth_structure_lemma. Qed.
+Print Assumptions C10_auth_structure_spec.
+
+Example C10_auth_structure_doc_example :
+  auth_structure_node_indices Release 8 [0; 2] = Ok [11; 9; 3] /\ minimal_list 8 [2; 0; 2] = [11; 9; 3].
+Proof. split; vm_compute; reflexivity. Qed.
+
+(* ---- complete + paths_are_siblings: for every list of in-range indices (any order, repetitions, empty) the
+   prover returns the proof (height, claimed leafs, minimal structure); it verifies against the root; and it
+   expands to the sibling paths of the tree *)
+Theorem C10_honest_proofs : forall (D : Type) (H : D -> D -> D) (Deqb : D -> D -> bool) (dflt : D),
+  (forall a b : D, Deqb a b = true <-> a = b) ->
+  forall (leafs : list D) (h : Z) (idxs : list Z) (m : mmode),
+  0 <= h <= 31 -> zlen leafs = 2 ^ h -> (forall i, In i idxs -> 0 <= i < 2 ^ h) ->
+  let T := spec_tree D H dflt leafs in
+  exists p,
+    mt_inclusion_proof D CUR_LEAF_FIXED m T idxs = Ok p /\
+    p = MkProof h (map (fun i => (i, znth D dflt leafs i)) idxs)
+                  (map (znth D dflt T) (minimal_list (2 ^ h) idxs)) /\
+    mt_root D T = Ok (znth D dflt T 1) /\
+    ip_verify D H Deqb m p (znth D dflt T 1) = Ok true /\
+    ip_into_authentication_paths D H Deqb m p =
+      Ok (map (fun i => tree_path D dflt T (2 ^ h + i) (Z.to_nat h)) idxs).
+Proof. exact honest_proofs_lemma. Qed.
+Print Assumptions C10_honest_proofs.
+
 (* which variant the oracle runs as "the current /repo" *)
 Theorem C10_model_variant : CUR_CUTOFF_FIXED = true.
 Proof. exact (eq_refl true). Qed.
